@@ -154,15 +154,37 @@ def check_time(rep, fl):
     self_ = V("self")
     d = norm(F(self_, "d"))
     created = norm(F(self_, "created_at"))
-    # is_expired == elapsed(created_at).map_or(false, |e| e >= d)
+    # is_expired: elapsed(created_at) failed => false; Ok(e) => e >= d - path by path on the flattened body, whatever
+    # the spelling (`map_or(false, |e| e >= d)`, `is_ok_and(..)`, a match, `if let Ok(e) = .. { e >= d } else { false }`)
     b = facts.body(TIME + "::is_expired")
-    e = norm(return_expr(b))
-    ok = is_call(e, "Result::map_or") and is_call(e[2][0], "SystemTime::elapsed") and norm(e[2][0][2][0]) == created and e[2][1] == ("const", 0, "bool")
-    if ok:
-        cb = facts.closure_body(e[2][2][1])
-        ce = in_parent_terms(facts, cb, return_expr(cb))
-        el = V(cb.local_name.get(2, "arg2"))
-        ok = is_call(ce, "PartialOrd::le") and ce[2][1] == el and ce[2][0] == d
+    fb = facts.flat(b)
+    is_el = lambda x: is_call(x, "SystemTime::elapsed") and norm(x[2][0]) == created
+    is_pay = lambda x: x[0] == "field" and x[2] == "0" and x[1][0] == "downcast" and x[1][2] == "Ok" and is_el(norm(x[1][1]))
+    is_want = lambda x: x is not None and is_call(x, "PartialOrd::le") and norm(x[2][0]) == d and is_pay(norm(x[2][1]))
+    try:
+        paths = sym_paths(fb)
+    except TooManyStates:
+        paths = None
+    ok = bool(paths)
+    e = norm(return_expr(b)) if return_expr(b) is not None else ("unknown", "several returns")
+    for lits, ret in paths or []:
+        got_ok = None
+        cmpv = None
+        for a, v in lits:
+            a = norm(a)
+            if a[0] == "variant" and is_el(norm(a[1])):
+                got_ok = v if a[2] == "Ok" else (not v)
+            if is_want(a):
+                cmpv = v
+            elif is_call(a, "PartialOrd::lt") and is_pay(norm(a[2][0])) and norm(a[2][1]) == d:
+                cmpv = not v
+        r = norm(ret) if ret is not None else None
+        if got_ok is True:
+            ok = ok and (is_want(r) or (r is not None and r[0] == "const" and cmpv is not None and bool(r[1]) == cmpv))
+        elif got_ok is False:
+            ok = ok and r is not None and r[0] == "const" and not r[1]
+        else:
+            ok = False
     rep.check(ok, "R03.3", fl, b, "is_expired", "is_expired() == (elapsed(created_at) >= d), false on a clock error", "is_expired() is %s" % show(e))
     # is_zero
     b = facts.body(TIME + "::is_zero")
@@ -191,6 +213,12 @@ def check_time(rep, fl):
             kinds.add("zero")
             for s in sts:
                 okall = okall and feval(zero, s) is False and any(is_call(a, "PartialOrd::le") and a[2][0] == d and is_call(strip_unwrap(a[2][1]), "SystemTime::elapsed") and v for a, v in s.lits)
+        elif is_call(e, "Duration::saturating_sub") and len(e[2]) == 2:
+            # d.saturating_sub(elapsed): ZERO when elapsed >= d, d - elapsed otherwise - both cases in one expression
+            kinds |= {"zero", "sub"}
+            okall = okall and e[2][0] == d and is_call(strip_unwrap(e[2][1]), "SystemTime::elapsed") and norm(strip_unwrap(e[2][1])[2][0]) == created
+            for s in sts:
+                okall = okall and feval(zero, s) is False
         elif is_call(e, "Sub::sub"):
             kinds.add("sub")
             okall = okall and e[2][0] == d and is_call(strip_unwrap(e[2][1]), "SystemTime::elapsed") and norm(strip_unwrap(e[2][1])[2][0]) == created
